@@ -6,7 +6,7 @@ from extract import Source
 import C13
 
 ASSUMPTIONS = [
-    'claimed for the INDEX-WRITER STEP only: one call of Storage::filter_block (real text) on an arbitrary block produces exactly the '
+    'claimed for the per-step obligations along the path filter batch -> matched record -> proved block -> index writer -> rollback -> query (shared with C06 / C02 / C04 / C13); INDEX-WRITER STEP: one call of Storage::filter_block (real text) on an arbitrary block produces exactly the '
     'ground-truth index delta (recomputed independently in the harness); plus the byte encoding of the keys is injective and '
     'order-preserving (unit keys), which is what justifies the structured-key store model used for filter_block',
     'bound: blocks of 2 transactions x 1 input x 1 output (lock + optional type script), one lock and one type script registered, one earlier '
@@ -36,4 +36,9 @@ def obligations():
                  '2 txs x 1 input x 1 output, outputs WITHOUT type scripts', cuts=CUTS, timeout=5400, mem_gb=24, min_covers=2, weight=9, tiers=('thorough',), field_sensitivity=True),
         KModelOb('O3.1-filter-block-t', 'filterblock', 'filter_block_lock_and_type', 'as O3.1-filter-block-2tx with outputs that may also carry a type script', ex_filterblock,
                  '2 txs x 1 input x 1 output with optional type scripts', cuts=CUTS, timeout=7200, mem_gb=24, min_covers=2, weight=9, tiers=('thorough',), field_sensitivity=True),
-    ] + C13.key_obligations('O3.3')
+    ] + C13.key_obligations('O3.3') + (
+        common.shared('C06', ['O6.5-script-selection', 'O6.1-filters', 'O6.1-filters-t'], 'O3', 'every block of a script range is examined: the filter batch is matched against every script whose range it touches, the '
+                      'filtered height only advances over verified filters, script numbers only move when nothing is pending') +
+        common.shared('C02', ['O2.5-add-block', 'O2.6-body-semantic'], 'O3', 'only proved, header-committed blocks are indexed, all matched blocks of a record, each once') +
+        common.shared('C04', ['O4.2-rollback', 'O4.2-rollback-prefix'], 'O3', 'after a fork switch the index holds no cell / history of the abandoned blocks') +
+        common.shared('C13', ['O13.2-cells-order'], 'O3', 'get_cells returns exactly the indexed cells of the script'))
